@@ -499,4 +499,19 @@ theorem build_lower (H : ScaledRoundTrip) (m : Mode) (l : List Node) (he : exprL
   | V => exact build_V H l _ (by simp [lower]) he
   | D => exact build_D H l _ (by simp [lower]) he
 
+/-- The per-element printer (`Display for ds::Horizontal`, as used by boxworks-testing). -/
+theorem build_each (H : ScaledRoundTrip) : ∀ (l : List Node) (f : Nat),
+    2 * callsSize (lowerEach l) < f → exprList .H l = true → buildCalls f .H (lowerEach l) = some l
+  | [], f, hf, he => by
+    obtain ⟨f', rfl⟩ : ∃ f', f = f' + 1 := ⟨f - 1, by omega⟩
+    simp [lowerEach, buildCalls]
+  | n :: r, f, hf, he => by
+    have ihr := build_each H r
+    simp only [exprList, Bool.and_eq_true] at he
+    obtain ⟨⟨ha, hen⟩, her⟩ := he
+    simp only [lowerEach, callsSize] at hf ⊢
+    obtain ⟨f', rfl⟩ : ∃ f', f = f' + 1 := ⟨f - 1, by omega⟩
+    rw [buildCalls_cons _ _ _ _ _ _ (build_node H n .H f' (by omega) ha hen) (ihr f' (by omega) her)]
+    rfl
+
 end C18
